@@ -52,6 +52,13 @@ type Case struct {
 	SameCh  bool   `json:"same_channel"`
 	Ops     []Op   `json:"ops"`
 	Hold    int    `json:"hold"` // 0 none; n: the n-th write on the client's carrier returns only at closure
+	// HoldSrv n: the n-th write on the SERVER's end of the carrier returns only after the next
+	// operation has been issued (the server's writer is preempted after the syscall while the
+	// next logical connection arrives); Together: the first two opens are issued without waiting
+	// for quiescence in between.
+	HoldSrv  int   `json:"hold_srv,omitempty"`
+	Together bool  `json:"together,omitempty"`
+	Chans    []int `json:"chans,omitempty"` // channel index per connection (default: i%2, or 0 with same_channel)
 }
 
 func (c Case) String() string {
@@ -59,7 +66,7 @@ func (c Case) String() string {
 	for _, o := range c.Ops {
 		s = append(s, o.String())
 	}
-	return fmt.Sprintf("%s k=%d samech=%v hold=%d [%s]", c.Carrier, c.K, c.SameCh, c.Hold, strings.Join(s, " "))
+	return fmt.Sprintf("%s k=%d samech=%v hold=%d holdSrv=%d together=%v chans=%v [%s]", c.Carrier, c.K, c.SameCh, c.Hold, c.HoldSrv, c.Together, c.Chans, strings.Join(s, " "))
 }
 
 // ---- abstract model -------------------------------------------------------------------
@@ -185,10 +192,14 @@ func execute(t *testing.T, c Case) (kind, detail string, stepsDone int, res bubb
 	res = bubble.Run(t, func() {
 		var release func()
 		o := world.Options{Carrier: c.Carrier, Channels: []string{"x", "y"}}
-		if c.Hold > 0 {
-			o.OnDial = func(cl, _ *netsim.MemConn) {
-				if release == nil {
+		var releaseSrv func()
+		if c.Hold > 0 || c.HoldSrv > 0 {
+			o.OnDial = func(cl, sv *netsim.MemConn) {
+				if c.Hold > 0 && release == nil {
 					release = cl.HoldWriteReturn(c.Hold)
+				}
+				if c.HoldSrv > 0 && releaseSrv == nil {
+					releaseSrv = sv.HoldWriteReturn(c.HoldSrv)
 				}
 			}
 		}
@@ -198,6 +209,9 @@ func execute(t *testing.T, c Case) (kind, detail string, stepsDone int, res bubb
 			return
 		}
 		chanOf := func(i int) *world.FakeChannel {
+			if i < len(c.Chans) {
+				return w.Chans[c.Chans[i]]
+			}
 			if c.SameCh || i%2 == 0 {
 				return w.Chans[0]
 			}
@@ -219,7 +233,7 @@ func execute(t *testing.T, c Case) (kind, detail string, stepsDone int, res bubb
 		}
 		st := absState{C: make([]connState, c.K)}
 		rt := make([]*connRT, c.K)
-		holdActive := func() bool { return c.Hold > 0 }
+		holdActive := func() bool { return c.Hold > 0 || releaseSrv != nil }
 
 		check := func(phase string, final bool) bool {
 			for i, cs := range st.C {
@@ -328,13 +342,27 @@ func execute(t *testing.T, c Case) (kind, detail string, stepsDone int, res bubb
 				}
 			}
 			st = step(st, op)
+			if c.Together && si == 0 && len(c.Ops) > 1 && c.Ops[1].Kind == "open" {
+				continue // the second open is issued in the same step
+			}
 			bubble.Wait()
+			if c.Carrier == "dns" {
+				settleDns(rt)
+			}
+			if releaseSrv != nil && si >= 1 {
+				releaseSrv() // the server's held write returns now that the next connection has arrived
+				releaseSrv = nil
+				bubble.Wait()
+			}
 			stepsDone++
 			if !check(fmt.Sprintf("after step %d %v", si, op), false) {
 				return
 			}
 		}
 	closure:
+		if releaseSrv != nil {
+			releaseSrv()
+		}
 		// closure: release the held write, resume every reader, no further faults
 		if release != nil {
 			release()
@@ -356,6 +384,9 @@ func execute(t *testing.T, c Case) (kind, detail string, stepsDone int, res bubb
 		}
 		bubble.Wait()
 		bubble.Advance(2 * time.Second)
+		if c.Carrier == "dns" {
+			settleDns(rt)
+		}
 		check("closure", true)
 	})
 	if res.Panic != "" {
@@ -365,6 +396,34 @@ func execute(t *testing.T, c Case) (kind, detail string, stepsDone int, res bubb
 		kind, detail = "spin", res.SpinMsg
 	}
 	return
+}
+
+// settleDns gives the DNS carrier the fake time its exchanges need: advance while bytes still
+// arrive anywhere (the carrier is poll-driven, quiescence alone does not move it).
+func settleDns(rt []*connRT) {
+	sum := func() (n int) {
+		for _, r := range rt {
+			if r == nil {
+				continue
+			}
+			if r.tgt == nil {
+				r.tgt = r.ch.Target(r.chIdx)
+			}
+			n += r.app.Obs().Got
+			if r.tgt != nil {
+				n += r.tgt.Obs().Got + 1
+			}
+		}
+		return
+	}
+	bubble.Advance(30 * time.Second)
+	for i := 0; i < 400; i++ {
+		before := sum()
+		bubble.Advance(30 * time.Second)
+		if sum() == before {
+			return
+		}
+	}
 }
 
 func record(r *mc.Run, c Case, kind, detail string, steps int) {
@@ -394,7 +453,7 @@ func plans(thorough bool) []plan {
 	if thorough {
 		return []plan{
 			{"stream", 2, false, []int{1, 5000, 70000}, 6, 10, 4},
-			{"stream", 2, true, []int{1, 70000}, 6, 10, 3},
+			{"stream", 2, true, []int{1, 70000}, 6, 0, 0}, // no holds: with a held writer the dial order on ONE channel is undefined
 			{"stream", 3, false, []int{1, 70000}, 5, 10, 3},
 			{"ws", 2, false, []int{1, 70000}, 5, 10, 3},
 			{"stdio", 2, false, []int{1, 70000}, 5, 0, 0},
@@ -507,6 +566,38 @@ func TestCheck(t *testing.T) {
 							if idx%7 == 0 {
 								r.Sample(map[string]any{"case": c.String(), "outcome": kind})
 							}
+						}
+						idx++
+					}
+				}
+			}
+		}
+	}
+	// scripted family: two logical connections opened (nearly) at once, to different or equal
+	// channels, optionally while the n-th write of the SERVER's carrier end is held
+	for _, carrier := range []string{"stream", "ws"} {
+		for _, chans := range [][]int{{0, 1}, {1, 0}} { // same-channel opens at once have no defined target order: not in this family
+			for _, together := range []bool{false, true} {
+				for hs := 0; hs <= 8; hs++ {
+					if !together && hs == 0 {
+						continue // plain sequential opens are covered by the graph above
+					}
+					tails := [][]Op{
+						{{Kind: "write", Conn: 0, Side: sideApp, N: 1}, {Kind: "write", Conn: 1, Side: sideApp, N: 1}},
+						{{Kind: "write", Conn: 1, Side: sideTgt, N: 70000}, {Kind: "write", Conn: 0, Side: sideTgt, N: 1}},
+					}
+					for _, tail := range tails {
+						ops := append([]Op{{Kind: "open", Conn: 0}, {Kind: "open", Conn: 1}}, tail...)
+						if r.Mine(idx) && !r.OverBudget() {
+							c := Case{Carrier: carrier, K: 2, Ops: ops, HoldSrv: hs, Together: together, Chans: chans}
+							var kind, detail string
+							var steps int
+							r.Guard(idx, 60*time.Second, "hang|"+carrier, c.String(), c, func() {
+								kind, detail, steps, _ = execute(t, c)
+							})
+							record(r, c, kind, detail, steps)
+							r.State(mc.Hash("together", carrier, chans, together, hs, len(tail), kind != ""))
+							r.Nontrivial(mc.Hash(c.String()))
 						}
 						idx++
 					}
